@@ -331,21 +331,23 @@ class Executor(ResolutionContext):
         items = []  # type: List[Any]
         failure = None  # type: Optional[Exception]
 
-        for index, entry in enumerate(resolved_value):
-            try:
+        try:
+            # Also covers an iterable raising while it is being consumed.
+            for index, entry in enumerate(resolved_value):
                 item = self.complete_value(
                     inner_type, nodes, path + [index], info, entry
                 )
-            except _COMPLETION_ERRORS as err:
-                failure = err
-                break
 
-            if nested:
-                item = self.runtime.map_value(
-                    item, _identity, else_=(_COMPLETION_ERRORS, _FailedItem)
-                )
+                if nested:
+                    item = self.runtime.map_value(
+                        item,
+                        _identity,
+                        else_=(_COMPLETION_ERRORS, _FailedItem),
+                    )
 
-            items.append(item)
+                items.append(item)
+        except _COMPLETION_ERRORS as err:
+            failure = err
 
         gathered = self.runtime.gather_values(items)
 
